@@ -876,6 +876,8 @@ class M_run_node(CoroBase):
         if saves:
             v0 = saves[0]
             out.append(('saved-at-most-once-per-run-of-this-coroutine|C19', len(saves) == 1))
+            out.append(('the-artifact-is-saved-before-the-result-becomes-visible (a run may end, and cancel a save in flight, as '
+                        'soon as its output is visible)|C19', order_ok(effects, v0, s0)))
             out.append(('saves-the-value-consumers-read|C19', z3.And(T(v0.a.node_id, st) == n, T(v0.a.data, st) == res)))
             out.append(('never-saves-a-Recurrent-marker|C19', z3.Not(is_rec)))
             out.append(('never-saves-a-contained-failure|C19', z3.Not(PyV.is_exc(res))))
